@@ -325,6 +325,8 @@ def C15():
     jobs = [
         MirJob("c15_mir_authenticate_layout", "AUTHENTICATE token: for all field lengths < 65536 and all negotiate flags every (Len, MaxLen, BufferOffset) addresses its field inside the final token (SMT, cvc5 cross-check); payload order matches; the Version field is present exactly when the offsets assume it; inputs are the computed responses, names, wrapped session key; MIC covers negotiate | challenge | authenticate",
                mirjobs.authenticate_layout),
+        MirJob("c15_mir_derivation_and_assembly", "NTOWFv2 from a password and from its NT hash follow the same derivation (Unicode upper-casing of the user, user+domain in UTF-16, HMAC-MD5); the final token is header | MIC | payload serialised after the MIC is known - confirmed against an independent MS-NLMP check when the structure changes",
+               mirjobs.ntlm_derivation),
         MirJob("c15_mir_negotiate_flags_closures", "NTLM message closures (Version field skipping) have no failing arithmetic for any flag word", mirjobs.size_closures(r"^(negotiate_message|challenge_message|authenticate_message)::", 131072, "NTLM")),
     ]
     return Prop("C15", [], jobs,
